@@ -242,7 +242,11 @@ pub fn nlt_builder_variant(cfgname: &str, recs: &[Vec<u8>], plan: u64) -> Option
         _ => if cfgname.is_empty() || cfgname == "default" { Nt::builder_default() } else { Nt::builder(cfg) },
     };
     let mut b = match b { Ok(b) => b, Err(e) => return Some(format!("builder construction failed: {}", e)) };
-    let keys: Vec<Vec<u8>> = (0..recs.len()).map(nlt_key).collect();
+    // plan bit 3: every key is added about three times (i, i + m, i + 2m share a key); the value added last is the key's value,
+    // however many other entries the builder sorts with it
+    let dup = plan / 8 % 2 == 1 && recs.len() >= 3;
+    let m = (recs.len() / 3).max(1);
+    let keys: Vec<Vec<u8>> = (0..recs.len()).map(|i| nlt_key(if dup { i % m } else { i })).collect();
     b.reserve(recs.len() / 2);
     let h = recs.len() / 3;
     for (k, d) in keys.iter().zip(recs.iter()).take(h) { if let Err(e) = b.add(k, d) { return Some(format!("add failed: {}", e)); } }
@@ -257,8 +261,11 @@ pub fn nlt_builder_variant(cfgname: &str, recs: &[Vec<u8>], plan: u64) -> Option
         // the bulk store behind the trie has the capacity limits of its offset index
         Err(e) => return if e.to_string().contains("too large") { None } else { Some(format!("finish failed: {}", e)) },
     };
-    for (k, d) in keys.iter().zip(recs.iter()) {
-        match s.get_by_key(k) { Ok(g) => if &g != d { return Some(format!("get_by_key({}) returned {} stored {}", String::from_utf8_lossy(k), hex(&g), hex(d))); }, Err(e) => return Some(format!("get_by_key({}) failed: {}", String::from_utf8_lossy(k), e)) }
+    let mut latest: HashMap<&[u8], &Vec<u8>> = HashMap::new();
+    for (k, d) in keys.iter().zip(recs.iter()) { latest.insert(k, d); }
+    for k in keys.iter() {
+        let d = latest[&k[..]];
+        match s.get_by_key(k) { Ok(g) => if &g != d { return Some(format!("get_by_key({}) returned {}, the value added last under this key is {}{}", String::from_utf8_lossy(k), hex(&g), hex(d), if dup { " (key added more than once)" } else { "" })); }, Err(e) => return Some(format!("get_by_key({}) failed: {}", String::from_utf8_lossy(k), e)) }
         if !s.contains_key(k) { return Some(format!("contains_key({}) is false for a key that was added", String::from_utf8_lossy(k))); }
     }
     // ids 0..n hold the records in the builder's insertion order (key order when it sorts): the same multiset
